@@ -6,7 +6,9 @@ use crate::spec::*;
 use crate::tzif::TYPED_KINDS;
 use tz::datetime::UtcDateTime;
 
-pub const DIR_POOL: &[&str] = &["/usr/share/zoneinfo", "/share/zoneinfo", "/etc/zoneinfo", "/d3", "zi", "/opt/tz/zoneinfo"];
+pub const DIR_POOL: &[&str] = &["/usr/share/zoneinfo", "/share/zoneinfo", "/etc/zoneinfo", "/d3", "zi", "/opt/tz/zoneinfo",
+    // directories whose joined paths a "tidy" implementation would spell differently: the candidate is always dir + "/" + name, literally
+    "/", "", "/d4/", ".", "//d5", "zi/", "/d3/."];
 pub const CORPUS_PICKS: &[&str] = &[
     "Europe/Paris",
     "America/New_York",
@@ -662,7 +664,8 @@ fn tz_value(r: &mut Rng, sc: &Scenario) -> TzArg {
         14 => {
             // very long values (path-length limits), exactly around 4096 octets
             let n = [4095usize, 4096, 4097, 5000, 300, 70000][r.usize(6)];
-            match r.below(3) {
+            match r.below(4) {
+                3 => TzArg::Lit(format!("{}{}", ":".repeat(n), ["", "UTC0", "Zone7"][r.usize(3)])),
                 0 => TzArg::Lit("A".repeat(n)),
                 1 => TzArg::Lit(format!("/{}", "b".repeat(n))),
                 _ => TzArg::Lit(format!("UTC0{}", " ".repeat(n))),
@@ -707,6 +710,11 @@ pub fn gen_c20(seed: u64) -> Scenario {
     for d in sc.dirs.clone() {
         for name in REL_NAMES {
             if r.below(1000) < density / 2 {
+                // the tidied spelling of the same candidate names another file (with other contents)
+                let tidy = format!("{}/{name}", d.trim_end_matches('/').trim_end_matches("/.")).replace("//", "/");
+                if tidy != format!("{d}/{name}") && r.chance(1, 2) {
+                    sc.files.push(FileInit { path: tidy, cid: r.usize(ncont), prev: None, perm: None });
+                }
                 sc.files.push(FileInit { path: format!("{d}/{name}"), cid: r.usize(ncont), prev: if r.chance(1, 4) { Some(r.usize(ncont)) } else { None }, perm: if r.chance(1, 12) { Some([ErrKind::Eacces, ErrKind::Eio, ErrKind::Einval, ErrKind::KInvalidInput, ErrKind::Enotdir, ErrKind::Custom][r.usize(6)].clone()) } else { None } });
             }
         }
@@ -1238,6 +1246,18 @@ fn gen_content_fault(r: &mut Rng, ncont: usize) -> Fault {
 fn tz_string_bytes(r: &mut Rng) -> Vec<u8> {
     let parts: &[&str] = &["EST", "5", "EDT", ",", "M3.2.0", "M11.1.0", "/2", "/-1", "/25", "/167:59:59", "J1", "J365", "J366", "0", "365", "366", "<+03>", "<", ">", "-", "+", ":", "24:59:59", "25", "M13.1.0", "M1.6.0", "M1.1.7", "M3.0.0", "M3.2.1", "M0.1.0", ",M3.0.0,M3.2.1", "AAA0BBB", "596524", "/596524", "2147483647", "4294967296", "65536", "/-596524", "J596524", "M3.596524.0", "99999999999999999999", " ", "\0", "é", "UTC0", ",M3.5.0,M10.5.0/3", "4:30"];
     let mut s = Vec::new();
+    if r.chance(1, 30) {
+        // one token repeated thousands of times (a parser that recurses per token runs out of stack)
+        let tok = [":", "<", "-", "+", "0", "M", ",", "/", " ", "<>", "A", "1:"][r.usize(12)];
+        let n = [1000usize, 5000, 20_000, 100_000][r.usize(4)];
+        for _ in 0..n {
+            s.extend_from_slice(tok.as_bytes());
+        }
+        if r.chance(1, 2) {
+            s.extend_from_slice(b"UTC0");
+        }
+        return s;
+    }
     for _ in 0..1 + r.usize(8) {
         s.extend_from_slice(r.pick(parts).as_bytes());
     }
@@ -1334,7 +1354,7 @@ pub fn gen_c19(seed: u64) -> Scenario {
     sc.dirs = vec!["/zi".into(), "/zi/".into(), "".into(), "rel".into(), "/a//b/".into()];
     for (i, name) in ["Zone/A", "B", "EST5EDT", "localtime"].iter().enumerate() {
         let d = sc.dirs[r.usize(sc.dirs.len())].clone();
-        sc.files.push(FileInit { path: format!("{d}/{name}"), cid: i % nz, prev: None, perm: None });
+        sc.files.push(FileInit { path: format!("{d}/{name}"), cid: i % nz, prev: None, perm: if r.chance(1, 5) { Some(r.pick(ErrKind::ALL).clone()) } else { None } });
         if r.chance(1, 2) {
             sc.files.push(FileInit { path: format!("{}/{name}", d.trim_end_matches('/')), cid: (i + 1) % nz, prev: None, perm: None });
         }
